@@ -125,6 +125,32 @@ Theorem blinding_invariant_established_and_kept :
     (forall b, blind_inv k b -> blind_inv k (blind_update k b)).
 Proof. exact blinding_inv_both. Qed.
 
+(* crt_blinded_correct speaks about a SEQUENCE of atomic read-and-update steps.  What makes the steps
+   atomic in the code is the key's lock: every access to the mutable blinding state of Python_RSAKey
+   happens inside `with self._lock` (table regenerated from /repo).  The Example shows that atomicity is
+   needed: a blinder read after another thread's update together with an unblinder read before it gives
+   a wrong result; harness/c10_sched.py enumerates the real interleavings of two threads. *)
+Theorem blinding_state_accessed_under_lock :
+  rsa_state_accesses <> [] /\
+  forallb (fun a => match a with (_, _, _, locked) => locked end) rsa_state_accesses = true.
+Proof. exact state_access_locked. Qed.
+
+Theorem private_op_correct_for_any_consistent_pair :
+  forall k, crt_shape_ok k = true ->
+    (forall x, 0 <= x < rk_n k -> (x ^ rk_e k) ^ rk_d k mod rk_n k = x) ->
+    (forall x, 0 <= x < rk_p k -> x ^ rk_dP k mod rk_p k = x ^ rk_d k mod rk_p k) ->
+    (forall x, 0 <= x < rk_q k -> x ^ rk_dQ k mod rk_q k = x ^ rk_d k mod rk_q k) ->
+    forall bl ub m, (bl * ub ^ rk_e k) mod rk_n k = 1 -> 0 <= m < rk_n k ->
+      raw_private_op_torn k bl ub m = m ^ rk_d k mod rk_n k.
+Proof. exact torn_correct_if_consistent. Qed.
+
+Example atomic_pair_read_is_necessary :
+  let b := blind_create toy_key 7 462 in
+  let b' := blind_update toy_key b in
+  raw_private_op_torn toy_key (bl_blinder b') (bl_unblinder b) 2 <> powmod 2 (rk_d toy_key) (rk_n toy_key) /\
+  raw_private_op_torn toy_key (bl_blinder b) (bl_unblinder b) 2 = powmod 2 (rk_d toy_key) (rk_n toy_key).
+Proof. exact torn_read_breaks. Qed.
+
 Theorem powmod_is_pow_mod : forall b e n, 0 < n -> 0 <= e -> powmod b e n = b ^ e mod n.
 Proof. exact powmod_spec. Qed.
 
